@@ -6,7 +6,8 @@
      DisjunctiveConditionsRemover (LayerA_Variants.dcr_compile; under hypotheses on the external DNF tables that the
      real walker is KNOWN to violate in places: see the comment there)
      NegativeConditionsRemover (LayerA_Neg.neg_compile; under a feature-level hypothesis on the external rewriting of a
-     single condition, likewise known to fail for Iff / Implies).
+     single condition, likewise known to fail for Iff / Implies)
+     Grounder (LayerA_Ground.ground_compile; declared kind = input kind).
    "kind" is KindOf's [kind_model] (C10's mirror of Problem.kind) of the embedded problem, [la_kind ax P], for EVERY
    auxiliary typing information [ax]/[ax'] of the original / compiled problem; the declared kind is the regenerated
    program of Gen/Gen_Engines.v run by Model/Factory.run_resulting.
@@ -28,6 +29,7 @@ Require Import UPV.Model.KindOf.
 Require Import UPV.Core.Eval UPV.Core.Interp UPV.Planning.Problem UPV.Model.KindBridge.
 Require Import UPV.Compilers.Variants UPV.Compilers.LayerA_Defs UPV.Compilers.LayerA_Quant.
 Require Import UPV.Compilers.LayerA_Variants UPV.Compilers.LayerA_Inv UPV.Compilers.LayerA_Neg.
+Require Import UPV.Planning.Ground UPV.Compilers.LayerA_Ground.
 Require Import UPV.Proofs.LayerA_Kind_proofs.
 
 (* the full statement for a Layer A compiler model: ALL features, not only the covered ones (not proved) *)
@@ -158,6 +160,19 @@ Theorem C09_LA_negative_conditions_remover_partial :
     forall f, In f la_covered -> In f (la_kind ax' (neg_compile nmap rw smp P)) -> mem f (k_feats d) = true.
 Proof. exact ncr_kind_model. Qed.
 Print Assumptions C09_LA_negative_conditions_remover_partial.
+
+
+(* ------------------------------------------------------------------ Grounder *)
+(* declared kind = the input kind (empty program).  [smp] is the grounder's Simplifier(env, problem); extra hypothesis: it
+   leaves the constant TRUE alone (the model simplifies the condition of an unconditional effect too). *)
+Theorem C09_LA_grounder_partial :
+  forall smp tuples nm ax ax' P k d,
+    smp (EBool true) = EBool true -> smp_ok smp -> (forall f, In f (la_kind ax P) -> mem f (k_feats k) = true) ->
+    run_resulting gen_tables (e_resulting E_up_grounder) k = Ok d ->
+    forall f, In f la_covered -> In f (la_kind ax' (ground_compile smp tuples nm P)) ->
+              (f = f_NEGATIVE_CONDITIONS -> keeps_op smp op_NOT) -> mem f (k_feats d) = true.
+Proof. exact grd_kind_model. Qed.
+Print Assumptions C09_LA_grounder_partial.
 
 (* ================================================================== non-vacuity, and the refuted clause *)
 (* (top-level definitions, no `let ... in` in statements proved by vm_compute) *)
@@ -377,4 +392,28 @@ Proof.
   split; [vm_compute; repeat constructor|]. split; [vm_compute; reflexivity|].
   split; [vm_compute; tauto|]. split; [vm_compute; reflexivity|]. split; [vm_compute; reflexivity|].
   split; vm_compute; reflexivity.
+Qed.
+
+(* ---- Grounder: a(p) with precondition Not(q(p)) has two ground instances; NEGATIVE_CONDITIONS stays and is declared *)
+Definition exG : problem :=
+  {| p_objs := [(0%N, [0%N; 1%N])]; p_ifun := []; p_fluents := [fb 0 []; fb 1 [0%N]];
+     p_actions := [(0%N, {| a_params := [0%N]; a_pre := [ENot (EFluent 1 [EParam 0])];
+                            a_effs := [assign 0 (EBool true) (EBool true)] |})];
+     p_goals := [EFluent 0 []]; p_invs := [] |}.
+Definition exG_tuples (i : N) : list (list value) := [[VObj 0]; [VObj 1]].
+Definition exG_k : kind := kind_of_feats (la_kind ax0 exG).
+Definition exG_d : kind := declared E_up_grounder exG_k.
+
+Example C09_LA_grounder_nonvacuous :
+  idsmp (EBool true) = EBool true /\ smp_ok idsmp /\ keeps_op idsmp op_NOT
+  /\ Forall (fun f => mem f (k_feats exG_k) = true) (la_kind ax0 exG)
+  /\ run_resulting gen_tables (e_resulting E_up_grounder) exG_k = Ok exG_d
+  /\ map (fun ia => a_pre (snd ia)) (p_actions (ground_compile idsmp exG_tuples ex_nm exG))
+     = [[ENot (EFluent 1 [EObj 0])]; [ENot (EFluent 1 [EObj 1])]]
+  /\ In f_NEGATIVE_CONDITIONS (la_kind ax0 (ground_compile idsmp exG_tuples ex_nm exG))
+  /\ mem f_NEGATIVE_CONDITIONS (k_feats exG_d) = true.
+Proof.
+  split; [reflexivity|]. split; [exact id_smp_ok|]. split; [exact (id_keeps _)|].
+  split; [vm_compute; repeat constructor|]. split; [vm_compute; reflexivity|].
+  split; [vm_compute; reflexivity|]. split; [vm_compute; tauto|vm_compute; reflexivity].
 Qed.
